@@ -292,13 +292,62 @@ Proof.
   - cnt_simp. specialize (IH H2 F). lia.
 Qed.
 
-Lemma pipe_send_cnt p m y :
+Lemma pipe_send_cnt p m y : pipe_ok p ->
   cnt y (pheld p) + (if pp_closed p then 0 else cnt y [m]) = cnt y (pheld (fst (pipe_send p m))) + cnt y (freed (snd (pipe_send p m))).
 Proof.
-  unfold pipe_send, pheld. destruct (pp_closed p); [cbn; cnt_simp; lia|].
-  destruct (pp_busy p).
+  intros (A & _). unfold pipe_send, pheld. destruct (pp_closed p); [cbn [fst snd freed]; cnt_simp; lia|].
+  destruct (pp_busy p) eqn:BS.
   - destruct (pq_full p).
     + destruct (pp_q p) eqn:Q; cbn [fst snd freed]; simp_p; rewrite ?Q; cnt_simp; lia.
     + cbn [fst snd freed]. simp_p. cnt_simp. lia.
-  - cbn [fst snd freed]. simp_p. cnt_simp.
-Abort.
+  - cbn [fst snd freed]. simp_p. destruct (A eq_refl) as [Q T]. rewrite Q, T. cnt_simp. lia.
+Qed.
+
+Lemma fanout_sum l m y : Forall pipe_ok l ->
+  cnt y (flat_map pheld l) + length (filter (fun p => negb (pp_closed p)) l) * cnt y [m] =
+  cnt y (flat_map pheld (map fst (map (fun p => pipe_send p m) l))) + cnt y (freed (flat_map snd (map (fun p => pipe_send p m) l))).
+Proof.
+  induction l as [|p l IH]; intros HF; cbn [flat_map map filter]; [reflexivity|]. inversion HF; subst.
+  specialize (IH H2). pose proof (pipe_send_cnt p m y H1) as P. rewrite freed_app. cnt_simp.
+  destruct (pp_closed p); cbn [negb length]; destruct (pmsg_eq_dec m y); lia.
+Qed.
+
+Theorem pub_conservation_step_law s o s' outs :
+  PubInv s -> pub_step s o = (s', outs) ->
+  forall y, cnt y (pub_owned s ++ pub_in s o) = cnt y (pub_owned s' ++ pub_wire s o ++ freed outs).
+Proof.
+  intros (I1 & I2 & I3) H y. unfold pub_owned.
+  destruct o as [k a nb m|k a nb|a rv|q peer|q|q rv|q rv m|k op|k|k| |now]; cbn [pub_step pub_in pub_wire] in *;
+    try (inversion H; subst; cbn [freed]; cnt_simp; lia).
+  - (* PSend *)
+    inversion H; subst; clear H. simp_p. rewrite freed_app. cbn [freed]. pose proof (fanout_sum (pb_pipes s) m y I1) as P.
+    unfold nopen. cnt_simp. rewrite cnt_repeat. cnt_simp. destruct (pmsg_eq_dec m y); lia.
+  - destruct (negb _); inversion H; subst; simp_p; cbn [freed]; [cnt_simp; lia|]. rewrite flat_map_app. cbn. cnt_simp. lia.
+  - (* PPipeClose *)
+    destruct (find_pipe q (pb_pipes s)) as [x|] eqn:F; inversion H; subst; simp_p; [|cbn [freed]; cnt_simp; lia].
+    rewrite freed_map_Free. pose proof (pheld_upd q (fun x => mkPpipe (pp_id x) true (pp_busy x) [] (pp_cap x) (pp_tx x)) _ x y I2 F) as P.
+    unfold pheld in P. fold pheld in P. simp_p. cnt_simp. lia.
+  - (* PSendDone *)
+    destruct (find_pipe q (pb_pipes s)) as [x|] eqn:F; [|inversion H; subst; destruct (rv =? 0)%N; cbn [freed]; cnt_simp; lia].
+    destruct (N.eqb_spec rv 0) as [->|Hrv]; cbn [negb] in H.
+    + destruct (pp_closed x).
+      * inversion H; subst; simp_p. cbn [freed].
+        pose proof (pheld_upd q (fun x => mkPpipe (pp_id x) true (pp_busy x) (pp_q x) (pp_cap x) None) _ x y I2 F) as P.
+        unfold pheld in P. fold pheld in P. simp_p. destruct (pp_tx x); cnt_simp; lia.
+      * destruct (pp_q x) as [|m r] eqn:Q; inversion H; subst; simp_p; cbn [freed].
+        -- pose proof (pheld_upd q (fun x => mkPpipe (pp_id x) false false [] (pp_cap x) None) _ x y I2 F) as P.
+           unfold pheld in P. fold pheld in P. simp_p. rewrite Q in P. destruct (pp_tx x); cnt_simp; lia.
+        -- pose proof (pheld_upd q (fun x => mkPpipe (pp_id x) false true r (pp_cap x) (Some m)) _ x y I2 F) as P.
+           unfold pheld in P. fold pheld in P. simp_p. rewrite Q in P. destruct (pp_tx x); cnt_simp; lia.
+    + inversion H; subst; simp_p. rewrite freed_app. cbn [freed].
+      pose proof (pheld_upd q (fun x => mkPpipe (pp_id x) (pp_closed x) (pp_busy x) (pp_q x) (pp_cap x) None) _ x y I2 F) as P.
+      unfold pheld in P. fold pheld in P. simp_p. destruct (pp_tx x); cbn [freed]; cnt_simp; lia.
+  - (* PRecvDone *)
+    inversion H; subst. rewrite freed_app. destruct (rv =? 0)%N; cbn [freed]; cnt_simp; lia.
+  - (* PSetOpt *)
+    destruct k; [inversion H; subst; cbn [freed]; cnt_simp; lia|]. destruct op; try (inversion H; subst; cbn [freed]; cnt_simp; lia).
+    + destruct (_ || _); inversion H; subst; simp_p; [cbn [freed]; cnt_simp; lia|].
+      rewrite freed_app, freed_map_Free. cbn [freed]. cnt_simp. clear. induction (pb_pipes s) as [|x l IH]; cbn [map flat_map]; [reflexivity|].
+      cnt_simp. destruct (pp_closed x); [cnt_simp; lia|]. unfold pheld at 1 3. simp_p. rewrite <- (firstn_skipn n (pp_q x)) at 1. cnt_simp. lia.
+    + destruct (_ <? _)%N; inversion H; subst; cbn [freed]; cnt_simp; lia.
+Qed.
